@@ -197,12 +197,12 @@ def step (s : State) (args : List String) (impl : String) : State × Out :=
     | some i, some ads, some r, some t =>
       let (s', fr) := opFin s i ads r t
       match fr with
-      | .noPending => finish s s' "nopending" .plain [] "triv:fin:nopending" impl
+      | .noPending => finish s s' "nopending" .plain (freshOf s (.fin i ads r t)) "triv:fin:nopending" impl
       | .completed h =>
         let evict : Bool := ads.any fun a => decide ((hostList s a).length ≥ maxHostInfos)
         finish s s' s!"ok {h}" .plain [h] (if evict then "fin:ok-evict" else "fin:ok") impl
       | .wrongHost h' isNew =>
-        finish s s' (if isNew then s!"wrong new {h'}" else s!"wrong have {h'}") .plain [] "fin:wrong-host" impl
+        finish s s' (if isNew then s!"wrong new {h'}" else s!"wrong have {h'}") .plain (freshOf s (.fin i ads r t)) "fin:wrong-host" impl
     | _, _, _, _ => (s, badOp)
   | ["resp", ads, r, p, t, vs] =>
     match addrsArg ads, natArg r, natArg p, natArg t, streamArg vs with
